@@ -2,7 +2,7 @@
     sequences the CLI commands open.  No proofs in this file.
 
     Go code followed (function names kept in comments):
-    - sql/sqlite/driver.go   Driver.Snapshot (cleanliness verdict + RestoreFunc)
+    - sql/sqlite/driver.go   Driver.Snapshot (cleanliness verdict + RestoreFunc, four statements)
     - sql/sqlite/inspect.go  tablesQuery (what InspectRealm can see)
     - sql/migrate/migrate.go Executor.Replay, Executor.Pending (first run:
                              FilesFromLastCheckpoint), Planner.plan/current/WritePlan
@@ -17,8 +17,10 @@
     The database is the content of sqlite_master (type, name, tbl_name) plus a
     row count per table.  A statement either succeeds (new database) or fails
     and leaves the database as it was (SQLite statements are atomic).  On top
-    of the failures the abstract engine predicts, a fault stream can make any
-    write fail (I/O error, lock, ...): [true] = this ExecContext fails. *)
+    of the failures the abstract engine predicts, two fault streams can make
+    any ExecContext fail (I/O error, lock, read-only connection ...): [fs] is
+    consumed by the statements of the bodies, [rs] by the four statements of
+    every RestoreFunc; [true] = this ExecContext fails. *)
 From Coq Require Import List NArith Bool Arith.
 From Atlas Require Import Base.Bytes.
 Import ListNotations.
@@ -72,25 +74,51 @@ Definition visible_table (o : obj) : bool :=
 (** InspectRealm(ctx, nil).Schemas[0].Tables *)
 Definition inspect_tables (d : db) : list obj := filter visible_table d.
 
-(** Snapshot's second query (fix 17b84dd):
-    SELECT type, name FROM sqlite_master WHERE type IN ('view','trigger') LIMIT 1 *)
-Definition view_or_trigger (o : obj) : bool :=
-  kind_eqb (o_kind o) KView || kind_eqb (o_kind o) KTrigger.
-Definition views_triggers (d : db) : list obj := filter view_or_trigger d.
+(** Snapshot's second query (fixes 17b84dd, C14-hidden-table):
+      SELECT type, name FROM sqlite_master
+      WHERE tbl_name NOT LIKE 'sqlite\_%' ESCAPE '\' AND tbl_name <> 'libsql_wasm_func_table' LIMIT 1
+    i.e. any object that does not belong to a bookkeeping table of the engine.
+    ['sqlite\_%'] with the escape: the seven characters "sqlite_" (ASCII
+    case-insensitive), then anything (also nothing); [<>] is case-sensitive. *)
+Definition prefix_ci (p s : bytes) : bool :=
+  match strip_prefix_ci p s with Some _ => true | None => false end.
 
-(** [clean] as Driver.Snapshot decides it. *)
+Definition b_sqlite_ : bytes := [115; 113; 108; 105; 116; 101; 95]%N.  (* "sqlite_" *)
+Definition b_wasm : bytes :=                                           (* "libsql_wasm_func_table" *)
+  [108; 105; 98; 115; 113; 108; 95; 119; 97; 115; 109; 95; 102; 117; 110; 99; 95; 116; 97; 98; 108; 101]%N.
+
+Definition reserved_tbl (n : bytes) : bool := prefix_ci b_sqlite_ n || bytes_eqb n b_wasm.
+
+(** the row belongs to a bookkeeping table of the engine (sqlite_sequence,
+    sqlite_stat1, ... -- SQLite reserves the prefix, no user object can carry
+    it -- or libSQL's libsql_wasm_func_table) *)
+Definition bookkeeping (o : obj) : bool := reserved_tbl (o_tbl o).
+Definition other_objects (d : db) : list obj := filter (fun o => negb (bookkeeping o)) d.
+
+(** [clean] as Driver.Snapshot decides it: no table in the inspected realm,
+    then no row from the query above. *)
 Definition code_clean (d : db) : bool :=
   match inspect_tables d with
   | _ :: _ => false
-  | [] => match views_triggers d with _ :: _ => false | [] => true end
+  | [] => match other_objects d with _ :: _ => false | [] => true end
   end.
 
-(** [clean] as the property means it: nothing at all. *)
-Definition prop_clean (d : db) : bool :=
+(** [clean] as the property means it: the database contains nothing -- nothing
+    but bookkeeping of the engine, which no statement can remove
+    (sqlite_sequence cannot be dropped; `atlas schema clean` leaves it and
+    sqlite_stat1 behind) and which is no content of the user. *)
+Definition prop_clean (d : db) : bool := forallb bookkeeping d.
+
+(** strictly nothing: what every session leaves behind *)
+Definition db_empty (d : db) : bool :=
   match d with [] => true | _ => false end.
 
 (** The RestoreFunc:
-    DELETE FROM sqlite_master WHERE type IN ('table','view','index','trigger'); VACUUM *)
+      PRAGMA writable_schema = 1;
+      DELETE FROM sqlite_master WHERE type IN ('table','view','index','trigger');
+      PRAGMA writable_schema = 0;
+      VACUUM;
+    [restore] is the effect of the DELETE. *)
 Definition in_delete_list (k : kind) : bool :=
   match k with KTable => true | KView => true | KIndex => true | KTrigger => true end.
 Definition restore (d : db) : db := filter (fun o => negb (in_delete_list (o_kind o))) d.
@@ -159,51 +187,84 @@ Definition body := list op.
 
 Inductive event :=
 | EWrite (m : nat) (ok : bool)   (* a write reached the dev database *)
-| ERestore                       (* the RestoreFunc ran *)
-| EDirWrite.                     (* Planner.WritePlan: the migration directory is written *)
+| ERestore (k : nat)             (* the RestoreFunc ran; [k] of its 4 statements succeeded *)
+| EDirWrite.                     (* Planner.WritePlan/WriteCheckpoint: the migration directory is written *)
 
-Inductive outcome := OOk | ORefused | OFail (m : nat).
+Inductive outcome := OOk | ORefused | OFail (m : nat) | ORestoreFail.
 
 Definition pop (fs : list bool) : bool * list bool :=
   match fs with [] => (false, []) | b :: t => (b, t) end.
 
+(** Two fault streams: [fs] is popped by every ExecContext of a body, [rs] by
+    every statement of the RestoreFunc ([true] = this ExecContext fails: I/O
+    error, lock, read-only connection ...).  The RestoreFunc stops at its first
+    failing statement; the database is emptied by its second one. *)
+Definition run_restore (rs : list bool) (d : db) : nat * db * list bool :=
+  let '(f1, rs1) := pop rs in
+  if f1 then (0, d, rs1) else
+  let '(f2, rs2) := pop rs1 in
+  if f2 then (1, d, rs2) else
+  let '(f3, rs3) := pop rs2 in
+  if f3 then (2, restore d, rs3) else
+  let '(f4, rs4) := pop rs3 in
+  if f4 then (3, restore d, rs4) else (4, restore d, rs4).
+
+Definition restore_done (k : nat) : bool := 4 <=? k.
+
+Inductive bres := BOk | BFail (m : nat) | BRestoreFail.
+
 (** The statements of the body, in order, until one fails. *)
-Fixpoint run_body (b : body) (fs : list bool) (d : db)
-  : option nat * db * list bool * list event :=
+Fixpoint run_body (b : body) (fs rs : list bool) (d : db)
+  : bres * db * list bool * list bool * list event :=
   match b with
-  | [] => (None, d, fs, [])
+  | [] => (BOk, d, fs, rs, [])
   | ORestore :: b' =>
-      let '(r, d', fs', es) := run_body b' fs (restore d) in (r, d', fs', ERestore :: es)
+      (* if err := restore(ctx); err != nil { return nil, err } *)
+      let '(k, d1, rs1) := run_restore rs d in
+      if restore_done k
+      then let '(r, d', fs', rs', es) := run_body b' fs rs1 d1 in (r, d', fs', rs', ERestore k :: es)
+      else (BRestoreFail, d1, fs, rs1, [ERestore k])
   | OExec m s :: b' =>
       let '(fail, fs1) := pop fs in
-      if fail then (Some m, d, fs1, [EWrite m false])
+      if fail then (BFail m, d, fs1, rs, [EWrite m false])
       else match exec_stmt s d with
-           | None => (Some m, d, fs1, [EWrite m false])
+           | None => (BFail m, d, fs1, rs, [EWrite m false])
            | Some d1 =>
-               let '(r, d', fs', es) := run_body b' fs1 d1 in (r, d', fs', EWrite m true :: es)
+               let '(r, d', fs', rs', es) := run_body b' fs1 rs d1 in (r, d', fs', rs', EWrite m true :: es)
            end
   end.
 
 (** [restore, err := Snapshot(ctx); if err != nil { return }; defer restore(ctx); body]
     -- Executor.Replay, DevDriver.NormalizeSchema/NormalizeRealm, DevLoader.LoadChanges.
-    Snapshot only reads (InspectRealm + one SELECT): no event before the verdict. *)
-Definition run_session (b : body) (fs : list bool) (d : db)
-  : outcome * db * list bool * list event :=
+    Snapshot only reads (InspectRealm + one SELECT): no event before the verdict.
+    [s_reports]: the deferred closure hands a restore error to the caller.  True
+    for Replay, LoadChanges, NormalizeRealm (named result [err]); false for
+    NormalizeSchema, whose results are unnamed: the closure assigns a dead
+    variable and a failing restore is silently dropped. *)
+Record sess := mkSess { s_body : body; s_reports : bool }.
+
+Definition run_session (s : sess) (fs rs : list bool) (d : db)
+  : outcome * db * list bool * list bool * list event :=
   if code_clean d then
-    let '(r, d', fs', es) := run_body b fs d in
-    (match r with None => OOk | Some m => OFail m end, restore d', fs', es ++ [ERestore])
-  else (ORefused, d, fs, []).
+    let '(r, d1, fs1, rs1, es) := run_body (s_body s) fs rs d in
+    let '(k, d2, rs2) := run_restore rs1 d1 in
+    (match r with
+     | BFail m => OFail m            (* errors.Join(err, err2): the statement's error comes first *)
+     | BRestoreFail => ORestoreFail
+     | BOk => if restore_done k || negb (s_reports s) then OOk else ORestoreFail
+     end, d2, fs1, rs2, es ++ [ERestore k])
+  else (ORefused, d, fs, rs, []).
 
 (** A command opens its sessions one after the other and stops at the first error. *)
-Fixpoint run_sessions (ss : list body) (fs : list bool) (d : db)
-  : outcome * db * list bool * list event :=
+Fixpoint run_sessions (ss : list sess) (fs rs : list bool) (d : db)
+  : outcome * db * list bool * list bool * list event :=
   match ss with
-  | [] => (OOk, d, fs, [])
+  | [] => (OOk, d, fs, rs, [])
   | b :: ss' =>
-      let '(o, d1, fs1, es1) := run_session b fs d in
+      let '(o, d1, fs1, rs1, es1) := run_session b fs rs d in
       match o with
-      | OOk => let '(o2, d2, fs2, es2) := run_sessions ss' fs1 d1 in (o2, d2, fs2, es1 ++ es2)
-      | _ => (o, d1, fs1, es1)
+      | OOk => let '(o2, d2, fs2, rs2, es2) := run_sessions ss' fs1 rs1 d1 in (o2, d2, fs2, rs2, es1 ++ es2)
+      | _ => (o, d1, fs1, rs1, es1)
       end
   end.
 
@@ -225,8 +286,14 @@ Fixpoint from_last_ckpt (fs : list mfile) : list mfile :=
 
 (** Executor.Replay -> ExecuteN(0) -> Pending (no revisions) -> exec *)
 Definition replay_body (dir : mdir) : body := execs (from_last_ckpt dir).
+Definition replay_sess (dir : mdir) : sess := mkSess (replay_body dir) true.
 
-(** latestChange.DetectChanges + DevLoader.LoadChanges *)
+(** ChangeDetector (latestChange: the latest N files are new; GitChangeDetector:
+    the first file added since the base branch and everything after it -- the
+    harness passes their number) + DevLoader.LoadChanges: base from its last
+    checkpoint (DevLoader.base), the new non-checkpoint files (first/next --
+    [first] runs a file of more than 10 statements in one loop: the same
+    ExecContext sequence), then per new checkpoint file restore + next. *)
 Definition lint_body (dir : mdir) (latest : nat) : body :=
   let n := length dir in
   let base := if n <=? latest then [] else firstn (n - latest) dir in
@@ -234,6 +301,7 @@ Definition lint_body (dir : mdir) (latest : nat) : body :=
   execs (from_last_ckpt base)
   ++ flat_map (fun f => if mf_ckpt f then [] else execs [f]) feat
   ++ flat_map (fun f => if mf_ckpt f then ORestore :: execs [f] else []) feat.
+Definition lint_sess (dir : mdir) (latest : nat) : sess := mkSess (lint_body dir latest) true.
 
 (** HCL desired state: tables with their indexes; NormalizeSchema/NormalizeRealm
     apply AddTable changes = CREATE TABLE followed by its CREATE INDEXes. *)
@@ -246,52 +314,72 @@ Definition normalize_body (ts : list htable) : body :=
 (** ** the commands *)
 Inductive source :=
 | SrcNone
+| SrcURL                            (* a database URL: read by inspection, no dev session *)
 | SrcSQL (ss : list (nat * stmt))   (* file://schema.sql *)
 | SrcDir (d : mdir)                 (* file://migrations *)
 | SrcHCL (ts : list htable).        (* file://schema.hcl *)
 
-Inductive command := CValidate | CLint (latest : nat) | CDiff | CSchemaDiff | CSchemaApply.
+(** every command that takes --dev-url (CCheckpoint: Planner.Checkpoint +
+    WriteCheckpoint, an API of sql/migrate; the community CLI has no
+    `migrate checkpoint`) *)
+Inductive command :=
+| CValidate | CLint (latest : nat) | CDiff | CSchemaDiff | CSchemaApply | CSchemaInspect | CCheckpoint.
+
+(** stateReaderHCL normalises only if the driver implements schema.Normalizer
+    (MySQL/PostgreSQL wrap sqlx.DevDriver; the SQLite driver does not):
+    NormalizeSchema if the dev URL is bound to a schema, else NormalizeRealm. *)
+Inductive normalizer := NoNorm | NormRealm | NormSchema.
 
 (** StateReaderSQL replays at once, inside stateReader(...). *)
-Definition eager (s : source) : list body :=
+Definition eager (s : source) : list sess :=
   match s with
-  | SrcSQL ss => [replay_body [mkMFile false ss]]
-  | SrcDir d => [replay_body d]
+  | SrcSQL ss => [replay_sess [mkMFile false ss]]
+  | SrcDir d => [replay_sess d]
   | _ => []
   end.
 
-(** stateReaderHCL normalises on ReadState, and only if the driver implements
-    schema.Normalizer ([norm]; false for SQLite, true for MySQL/PostgreSQL). *)
-Definition deferred (norm : bool) (s : source) : list body :=
-  match s with
-  | SrcHCL ts => if norm then [normalize_body ts] else []
-  | _ => []
+(** stateReaderHCL normalises on ReadState. *)
+Definition deferred (norm : normalizer) (s : source) : list sess :=
+  match s, norm with
+  | SrcHCL ts, NormRealm => [mkSess (normalize_body ts) true]
+  | SrcHCL ts, NormSchema => [mkSess (normalize_body ts) false]
+  | _, _ => []
   end.
 
-Definition sessions_of (norm : bool) (c : command) (dir : mdir) (from to : source) : list body :=
+(** migrateValidateRun: Replay.  migrateLintRun: Runner.Run -> LoadChanges.
+    migrateDiffRun: stateReader(to); Planner.plan = current (Replay), then
+    to.ReadState.  schemaDiffRun: stateReader(from); stateReader(to);
+    computeDiff = from.ReadState, to.ReadState.  schemaApplyRun: from is the
+    target URL; stateReader(to); computeDiff.  schemaInspectRun: stateReader(url);
+    r.ReadState.  Planner.checkpoint: current (Replay).
+    Every session is closed (its deferred restore has run) before the next
+    one is opened; the only restores inside a session are LoadChanges'. *)
+Definition sessions_of (norm : normalizer) (c : command) (dir : mdir) (from to : source) : list sess :=
   match c with
-  | CValidate => [replay_body dir]
-  | CLint n => [lint_body dir n]
-  | CDiff => eager to ++ [replay_body dir] ++ deferred norm to
+  | CValidate => [replay_sess dir]
+  | CLint n => [lint_sess dir n]
+  | CDiff => eager to ++ [replay_sess dir] ++ deferred norm to
   | CSchemaDiff => eager from ++ eager to ++ deferred norm from ++ deferred norm to
   | CSchemaApply => eager to ++ deferred norm to
+  | CSchemaInspect => eager from ++ deferred norm from
+  | CCheckpoint => [replay_sess dir]
   end.
 
-Definition is_diff (c : command) : bool := match c with CDiff => true | _ => false end.
+(** the commands that write the migration directory at all *)
+Definition writes_dir (c : command) : bool :=
+  match c with CDiff | CCheckpoint => true | _ => false end.
 Definition is_ok (o : outcome) : bool := match o with OOk => true | _ => false end.
 
 (** [changes]: the plan is not empty (otherwise ErrNoPlan, nothing is written). *)
-Definition run_cmd (norm : bool) (c : command) (dir : mdir) (from to : source)
-           (changes : bool) (fs : list bool) (d : db) : outcome * db * list event :=
-  let '(o, d', _, es) := run_sessions (sessions_of norm c dir from to) fs d in
-  (o, d', es ++ (if is_diff c && is_ok o && changes then [EDirWrite] else [])).
+Definition run_cmd (norm : normalizer) (c : command) (dir : mdir) (from to : source)
+           (changes : bool) (fs rs : list bool) (d : db) : outcome * db * list event :=
+  let '(o, d', _, _, es) := run_sessions (sessions_of norm c dir from to) fs rs d in
+  (o, d', es ++ (if writes_dir c && is_ok o && changes then [EDirWrite] else [])).
 
 (** ** well-formedness of a database and the observation the driver prints *)
+(** sqlite_master: tbl_name of a table row is its name *)
 Definition wf_db (d : db) : Prop :=
-  forall o, In o d -> o_kind o = KIndex -> exists t, In t d /\ o_kind t = KTable /\ o_name t = o_tbl o.
-
-Definition no_hidden (d : db) : Prop :=
-  forall o, In o d -> o_kind o = KTable -> hidden_name (o_name o) = false.
+  forall o, In o d -> o_kind o = KTable -> o_tbl o = o_name o.
 
 Definition obj_eqb (a b : obj) : bool :=
   kind_eqb (o_kind a) (o_kind b) && bytes_eqb (o_name a) (o_name b)
@@ -307,7 +395,15 @@ Fixpoint db_eqb (a b : db) : bool :=
 Definition dir_written (es : list event) : bool :=
   existsb (fun e => match e with EDirWrite => true | _ => false end) es.
 
-Definition observe (norm : bool) (c : command) (dir : mdir) (from to : source)
-           (changes : bool) (d : db) : outcome * bool * bool * bool :=
-  let '(o, d', es) := run_cmd norm c dir from to changes [] d in
-  (o, db_eqb d d', prop_clean d', dir_written es).
+(** what changes the database: a successful write, a restore that reached its DELETE *)
+Definition touching (e : event) : bool :=
+  match e with
+  | EWrite _ ok => ok
+  | ERestore k => 2 <=? k
+  | EDirWrite => false
+  end.
+
+Definition observe (norm : normalizer) (c : command) (dir : mdir) (from to : source)
+           (changes : bool) (fs rs : list bool) (d : db) : outcome * bool * bool * bool :=
+  let '(o, d', es) := run_cmd norm c dir from to changes fs rs d in
+  (o, db_eqb d d', db_empty d', dir_written es).
